@@ -366,7 +366,7 @@ class C07(PropertyCheck):
                                    "max_iters": T, "tables": tabs, "default": lm_row(rng, V, exact),
                                    "draws": draws, "exact": exact, "sel": sel,
                                    "dtype": rng.choice(DT_W), "lm_layout": rng.choice(LAY_W),
-                                   "lm_mut": mut, "default_junk": dj}
+                                   "lm_mut": mut, "default_junk": dj, "cache": rng.random() < 0.5}
 
     # ---- advance: the step function called directly (with and without prefix lengths)
     def gen_advance(self, rng, tier):
@@ -428,7 +428,7 @@ class C07(PropertyCheck):
                                    "values": self.dist_values(rng, V, T, e), "exact": False,
                                    "sel": sel, "shared": N is None,
                                    "validate_args": rng.choice([True, True, None, False]),
-                                   "lm_mut": mut, "default_junk": dj}
+                                   "lm_mut": mut, "default_junk": dj, "cache": rng.random() < 0.5}
 
     def dist_values(self, rng, V, T, eos):
         """rows whose validity is asked: every length 1..T+1, with/without eos, OOV before/after eos"""
@@ -454,15 +454,18 @@ class C07(PropertyCheck):
         return vals
 
     # ---- sample
+    SAMPLE_SHAPES = ([], [1], [2], [3], [2, 2], [1, 2], [2, 1, 2], [0], [2, 0])
+
     def gen_sample(self, rng, tier):
         reps = {"quick": 2, "thorough": 20, "search": 30}[tier]
+        k = 0
         for r in range(reps):
             for V in (2, 3):
                 for eos in [None] + list(range(V)) + list(range(-V, 0)):
                     e = None if eos is None else eos % V
                     for N in (None, 1, 2):
-                        for shape in ([], [1], [2], [3], [2, 2], [0], [2, 0]):
-                            if eos is not None and eos < 0 and (N == 1 or shape in ([1], [2, 0])):
+                        for shape in self.SAMPLE_SHAPES:
+                            if eos is not None and eos < 0 and (N == 1 or shape in ([1], [2, 0], [1, 2], [2, 1, 2])):
                                 continue
                             T = rng.choice([1, 2, 3])
                             limit = T
@@ -498,12 +501,193 @@ class C07(PropertyCheck):
                                     sel = [rng.randrange(K) for _ in range(N)]
                             tabs = lm_tables(rng, V, K, T, e, exact)
                             mut, dj = lm_options(rng, e)
+                            k += 1
                             yield {"kind": "sample", "V": V, "N": N, "shape": shape, "eos": eos,
                                    "max_iters": limit, "tables": tabs, "default": lm_row(rng, V, exact),
                                    "draws": draws, "exact": exact, "sel": sel, "shared": N is None,
                                    "validate_args": rng.choice([True, True, None, False]),
                                    "dtype": rng.choice(DT_W), "lm_layout": rng.choice(LAY_W),
-                                   "lm_mut": mut, "default_junk": dj}
+                                   "lm_mut": mut, "default_junk": dj,
+                                   "script": self.sample_script(rng, shape, N, k)}
+
+    # The calls made on ONE distribution object (once with cache_samples=True, once without; the
+    # never-caching object is the reference). The tensors the caller holds are numbered (`ref`); the
+    # content of a tensor is a list of draws of the first sample (`draws`, with repetition) arranged
+    # in a sample shape `sshape`, i.e. a tensor of shape sshape + batch_shape + (S,).
+    #   {"op": "sample", "ref": r}                          t_r = dist.sample(shape) (the same draws again)
+    #   {"op": "new", "ref": r, "draws", "sshape", ...}     t_r = a new tensor (dtype / memory layout / batch
+    #                                                       elements swapped as given)
+    #   {"op": "set", "ref": r, "draws", "sshape"}          t_r.copy_(...): the caller edits its tensor in place
+    #   {"op": "lp", "ref": r, "id": i}                     dist.log_prob(t_r)
+    #   {"op": "edit", "id": i}                             the scores call i returned are edited in place (-= 1)
+    #   {"op": "clear"}                                     dist.clear_cache()
+    VALUE_KINDS = ("full", "alt", "part", "one", "flat", "grid", "pick", "pick", "empty")
+    SEGMENTS = ("twice", "equal_copy", "between", "cleared", "resample", "edit_value", "edit_sample",
+                "edit_scores", "reshaped", "hit_after_sample")
+
+    @staticmethod
+    def sshapes_of(m, rng):
+        """sample shapes with m draws"""
+        out = [[m], [1, m], [m, 1], [1, 1, m]]
+        if m == 1:
+            out.append([])
+        for a in range(2, m):
+            if m % a == 0:
+                out.append([a, m // a])
+        return out
+
+    def value_content(self, rng, kind, shape, N):
+        """-> (draws, sshape) or None when the sample has no such value"""
+        M = prodl(shape)
+        if kind == "full":
+            return list(range(M)), list(shape)
+        if kind == "alt":
+            return ([(i - 1) % M for i in range(M)], list(shape)) if M >= 2 else None
+        if kind == "part":
+            return (list(range(1, M)), [M - 1]) if M >= 2 else None
+        if kind == "one":
+            return [rng.randrange(M)], []
+        if kind == "flat":
+            return list(range(M)), [M]
+        if kind == "grid":
+            return list(range(M)), rng.choice(self.sshapes_of(M, rng))
+        if kind == "empty":
+            return [], rng.choice([[0], [2, 0], [0, 1]])
+        m = rng.choice([1, 1, 2, 2, 3, 4])
+        return [rng.randrange(M) for _ in range(m)], rng.choice(self.sshapes_of(m, rng))
+
+    def sample_script(self, rng, shape, N, k, segments=None):
+        M = prodl(shape)
+        ops = [{"op": "sample", "ref": 0}]
+        if M == 0:
+            return ops + [{"op": "lp", "ref": 0, "id": 0}]
+        st = {"ref": 1, "id": 0}
+
+        def new(content, plain=False):
+            r = st["ref"]
+            st["ref"] += 1
+            op = {"op": "new", "ref": r, "draws": content[0], "sshape": content[1]}
+            if not plain:
+                if rng.random() < 0.25:
+                    op["dtype"] = rng.choice(["f32", "f64", "i32"])
+                if rng.random() < 0.25:
+                    op["lay"] = rng.choice(["perm", "strided", "offset"])
+                if N == 2 and rng.random() < 0.2:
+                    op["swap"] = True
+            ops.append(op)
+            return r
+
+        def sample():
+            r = st["ref"]
+            st["ref"] += 1
+            ops.append({"op": "sample", "ref": r})
+            return r
+
+        def lp(r):
+            ops.append({"op": "lp", "ref": r, "id": st["id"]})
+            st["id"] += 1
+            return st["id"] - 1
+
+        def content(kinds=None):
+            while True:
+                c = self.value_content(rng, rng.choice(kinds or self.VALUE_KINDS), shape, N)
+                if c is not None:
+                    return c
+
+        def other(c):
+            """another content of the same shape (None: the sample has a single draw)"""
+            if not c[0] or M < 2:
+                return None
+            d = list(c[0])
+            j = rng.randrange(len(d))
+            d[j] = (d[j] + 1 + rng.randrange(M - 1)) % M
+            return d, list(c[1])
+
+        def any_tensor(kinds=None):
+            """a tensor the caller holds: a fresh sample, the first sample, or one it built"""
+            x = rng.random()
+            if x < 0.2:
+                return sample(), (list(range(M)), list(shape))
+            if x < 0.35:
+                return 0, (list(range(M)), list(shape))
+            c = content(kinds)
+            return new(c), c
+
+        # every script has a log_prob answered from an entry that log_prob itself wrote; the kind of
+        # value rotates with the case counter so that every sample shape class meets every kind
+        first = ("full", "one", "pick", "grid", "alt", "flat", "part")[k % 7]
+        names = list(segments) if segments is not None else \
+            ["twice:" + first] + [rng.choice(self.SEGMENTS) for _ in range(2)]
+        if segments is None:
+            rng.shuffle(names)
+        for name in names:
+            if name.startswith("twice"):
+                kind = name.split(":")[1] if ":" in name else None
+                c = (self.value_content(rng, kind, shape, N) if kind else None) or content(("full", "one", "pick"))
+                r = new(c)
+                lp(r)
+                lp(r)
+            elif name == "hit_after_sample":
+                lp(0)
+            elif name == "equal_copy":
+                c = content()
+                lp(new(c))
+                lp(new(c))
+            elif name == "between":
+                r1, _ = any_tensor()
+                r2, _ = any_tensor()
+                lp(r1)
+                lp(r2)
+                lp(r1)
+            elif name == "cleared":
+                r, _ = any_tensor()
+                lp(r)
+                ops.append({"op": "clear"})
+                lp(r)
+                lp(r)
+            elif name == "resample":
+                r = sample()
+                lp(r)
+                if rng.random() < 0.5:
+                    lp(new((list(range(M)), list(shape))))
+            elif name == "edit_value":
+                c = content(("full", "alt", "part", "one", "flat", "grid", "pick"))
+                o = other(c)
+                if o is None:
+                    continue
+                r = new(c)
+                lp(r)
+                ops.append({"op": "set", "ref": r, "draws": o[0], "sshape": o[1]})
+                lp(r)
+                if rng.random() < 0.5:
+                    lp(new(c, plain=True))
+            elif name == "edit_sample":
+                c = (list(range(M)), list(shape))
+                o = other(c)
+                if o is None:
+                    continue
+                r = sample() if rng.random() < 0.6 else 0
+                if rng.random() < 0.6:
+                    lp(r)
+                ops.append({"op": "set", "ref": r, "draws": o[0], "sshape": o[1]})
+                lp(r)
+            elif name == "edit_scores":
+                r, _ = any_tensor()
+                i = lp(r)
+                if rng.random() < 0.5:
+                    i = lp(r)
+                ops.append({"op": "edit", "id": i})
+                lp(r)
+            elif name == "reshaped":
+                # the same rows in two different shapes
+                c = content(("full", "pick", "flat"))
+                alts = [ss for ss in self.sshapes_of(len(c[0]), rng) if ss != c[1]]
+                r1 = new(c)
+                r2 = new((c[0], rng.choice(alts)))
+                lp(r1)
+                lp(r2)
+                lp(r1)
+        return ops
 
     # ---- lpraise: log_prob call sequences on one caching distribution whose language model raises
     LPRAISE_TRACES = {
@@ -570,7 +754,8 @@ class C07(PropertyCheck):
                     rows = case["values"][op]
                     value = torch.tensor(rows, dtype=torch.long).view([1] + ([] if N is None else [N]) + [T])
                     try:
-                        outs.append([tl.fs(x) for x in dist.log_prob(value).reshape(-1).tolist()])
+                        lp = dist.log_prob(value)
+                        outs.append({"shape": list(lp.shape), "data": [tl.fs(x) for x in lp.reshape(-1).tolist()]})
                     except Exception as ex:
                         outs.append({"error": type(ex).__name__, "message": str(ex)[:120]})
                 obs["cached" if cache else "fresh"] = outs
@@ -588,10 +773,10 @@ class C07(PropertyCheck):
 
     @staticmethod
     def lp_same(a, b):
-        """two log_prob outcomes agree: the same error class, or the same scores"""
-        if isinstance(a, dict) or isinstance(b, dict):
-            return isinstance(a, dict) and isinstance(b, dict) and a["error"] == b["error"]
-        return all_close(a, b, True)
+        """two log_prob outcomes agree: the same error class, or the same shape and scores"""
+        if "error" in a or "error" in b:
+            return "error" in a and "error" in b and a["error"] == b["error"]
+        return a["shape"] == b["shape"] and all_close(a["data"], b["data"], True)
 
     @staticmethod
     def lp_model(o):
@@ -632,11 +817,11 @@ class C07(PropertyCheck):
                 sig = None
                 # the known defect: exactly what the pinned write order gives (scores of the value scored
                 # before the failed call, or the internal AssertionError on an empty cache)
-                if key == "cached" and isinstance(r, dict) and r["error"] == "IndexError" \
+                if key == "cached" and r.get("error") == "IndexError" \
                         and self.lp_same(o, pinned[i]) and i > 0 and ops[i] == ops[i - 1] == 1:
                     sig = "C07.log_prob.cache_after_exception"
-                what = "raised " + o["error"] if isinstance(o, dict) else f"returned {o}"
-                want = "raises " + r["error"] if isinstance(r, dict) else f"returns {r}"
+                what = "raised " + o["error"] if "error" in o else f"returned {self.call_str(o)}"
+                want = self.call_str(r) if "error" not in r else "raises " + r["error"]
                 fails.append((f"cache_samples={key == 'cached'}: log_prob call {i} (value {ops[i]} of "
                               f"{case['values']}, trace {case['trace']}) {what}; a distribution that never "
                               f"caches {want} (the language model raises IndexError on out-of-vocabulary "
@@ -876,9 +1061,15 @@ class C07(PropertyCheck):
                 obs["seq_lp"] = [tl.fs(x) for x in sequence_log_probs(full, y, 0, walk.eos).tolist()]
                 init = init_state(case)
                 snap = tl.state_snapshot(init or {})
-                dist = SequentialLanguageModelDistribution(walk, N, init, T, validate_args=True)
+                dist = SequentialLanguageModelDistribution(walk, N, init, T, validate_args=True,
+                                                           cache_samples=bool(case.get("cache")))
                 value = y.t().unsqueeze(0)
-                lp_of = lambda v: [tl.fs(x) for x in dist.log_prob(v).view(-1).tolist()]
+                obs["dist_lp_shapes"] = []
+
+                def lp_of(v):
+                    lp_ = dist.log_prob(v)
+                    obs["dist_lp_shapes"].append(list(lp_.shape))
+                    return [tl.fs(x) for x in lp_.reshape(-1).tolist()]
                 obs["dist_lp"] = attempt(lambda: lp_of(value))
                 # more calls on the same distribution object: log_prob again, a sample with the same
                 # draws (one walk of batch size N), log_prob of that sample
@@ -988,7 +1179,8 @@ class C07(PropertyCheck):
         walk = RandomWalk(lm, case["eos"])
         init = init_state(case)
         snap = tl.state_snapshot(init or {})
-        dist = SequentialLanguageModelDistribution(walk, N, init, T, validate_args=va)
+        dist = SequentialLanguageModelDistribution(walk, N, init, T, validate_args=va,
+                                                   cache_samples=bool(case.get("cache")))
         supp = dist.enumerate_support()
         obs = {"support_shape": list(supp.shape), "has_enumerate_support": bool(dist.has_enumerate_support)}
         rows = supp if N is None else supp[:, 0]
@@ -999,6 +1191,7 @@ class C07(PropertyCheck):
         obs["noexpand_same"] = bool(torch.equal(ne.reshape(ne.size(0), -1), rows))
         try:
             lps = dist.log_prob(supp)
+            obs["support_lp_shape"] = list(lps.shape)
             obs["support_lp"] = [[tl.fs(x) for x in r] for r in lps.view(lps.size(0), -1).t().tolist()]
             obs["logsumexp"] = [float(x) for x in lps.logsumexp(0).view(-1).tolist()]
             # the same rows handed over as floating-point tensors (what an estimator passes on)
@@ -1021,7 +1214,10 @@ class C07(PropertyCheck):
                 check.append(type(ex).__name__)
             try:
                 # the score of batch element 0 (tokens after the first eos may be anything)
-                value_lp.append(tl.fs(dist.log_prob(val).reshape(-1)[0]))
+                lp_ = dist.log_prob(val)
+                if list(lp_.shape) != list(val.shape[:-1]):
+                    obs.setdefault("value_lp_shapes", []).append([v, list(lp_.shape)])
+                value_lp.append(tl.fs(lp_.reshape(-1)[0]))
                 valid.append(True)
             except ValueError:
                 valid.append(False)
@@ -1069,25 +1265,49 @@ class C07(PropertyCheck):
         return [list(s) for s in sorted(out)]
 
     # ---- sample
+    @staticmethod
+    def script_of(case):
+        """the calls made on the distribution object (cases of the corpus written before the scripts
+        existed: the fixed sequence sample / hit / rotated / again / part / clear / again)"""
+        if case.get("script") is not None:
+            return case["script"]
+        shape, M = case["shape"], prodl(case["shape"])
+        ops = [{"op": "sample", "ref": 0}, {"op": "lp", "ref": 0, "id": 0}]
+        if M:
+            ops += [{"op": "new", "ref": 1, "draws": [(i - 1) % M for i in range(M)], "sshape": list(shape)},
+                    {"op": "lp", "ref": 1, "id": 1}, {"op": "lp", "ref": 0, "id": 2}]
+            if M >= 2:
+                ops += [{"op": "new", "ref": 2, "draws": list(range(1, M)), "sshape": [M - 1]},
+                        {"op": "lp", "ref": 2, "id": 3}]
+            ops += [{"op": "clear"}, {"op": "lp", "ref": 0, "id": 4}]
+        return ops
+
+    @staticmethod
+    def row_idx(op, N):
+        """rows of the flattened first sample (row = draw * n + batch element) a tensor holds"""
+        n = N or 1
+        return [d * n + ((n - 1 - b) if op.get("swap") else b) for d in op["draws"] for b in range(n)]
+
     def impl_sample(self, case):
         import torch
         from pydrobert.torch.modules import RandomWalk
         from pydrobert.torch.distributions import SequentialLanguageModelDistribution
         V, N, T = case["V"], case["N"], case["max_iters"]
         M = prodl(case["shape"])
+        n = N or 1
+        batch = [] if N is None else [N]
         lm = self.walk_lm(case, shared=N is None)
         walk = RandomWalk(lm, case["eos"])
         va = case.get("validate_args", True)
         obs = {}
         ctx = tl.identity_log_softmax() if case["exact"] else _null()
+        script = self.script_of(case)
 
-        def lp_obs(dist, value, key):
-            try:
-                lp = dist.log_prob(value)
-                obs[key + "_shape"] = list(lp.shape)
-                obs[key] = [tl.fs(x) for x in lp.reshape(-1).tolist()]
-            except Exception as ex:
-                obs[key] = {"error": type(ex).__name__, "message": str(ex)[:160]}
+        def content(op, rows, S):
+            if not op["draws"]:
+                return torch.empty(op["sshape"] + batch + [S], dtype=torch.long)
+            t = rows[torch.tensor(self.row_idx(op, N))]
+            return t.reshape(op["sshape"] + batch + [S])
 
         with ctx:
             obs["init_changes"] = []
@@ -1096,28 +1316,50 @@ class C07(PropertyCheck):
                 snap = tl.state_snapshot(init or {})
                 dist = SequentialLanguageModelDistribution(walk, N, init, T,
                                                            cache_samples=cache, validate_args=va)
-                log = []
-                # a batched walk stops early when all its paths ended: hand each walk its own draws
-                with _walk_replay(case, log):
-                    s = dist.sample(torch.Size(case["shape"]))
                 key = "cached" if cache else "fresh"
-                obs["shape"] = list(s.shape)
-                obs["rows"] = s.reshape(-1, s.size(-1)).tolist() if M else []
-                obs[key + "_draws"] = len(log)
-                lp_obs(dist, s, key + "_lp")
-                if M:
-                    # another value of the same shape (the samples rotated along the sample
-                    # dimension), then the sample again: the cache must not answer for another value
-                    S = s.size(-1)
-                    alt = s.reshape((M, -1, S)).roll(1, 0).reshape(s.shape)
-                    lp_obs(dist, alt, key + "_alt_lp")
-                    lp_obs(dist, s, key + "_again_lp")
-                    if M >= 2:
-                        # a value of another shape (the first draw left out) while the cache is filled
-                        part = s.reshape((M, -1, S))[1:].reshape([M - 1] + list(s.shape[len(case["shape"]):]))
-                        lp_obs(dist, part, key + "_part_lp")
-                    dist.clear_cache()
-                    lp_obs(dist, s, key + "_cleared_lp")
+                tensors, outs, calls, rows, S = {}, {}, [], None, None
+                resampled = []
+                for op in script:
+                    kind = op["op"]
+                    if kind == "sample":
+                        log = []
+                        # a batched walk stops early when all its paths ended: hand each walk its own draws
+                        with _walk_replay(case, log):
+                            s = dist.sample(torch.Size(case["shape"]))
+                        if rows is None:
+                            obs["shape"] = list(s.shape)
+                            obs["rows"] = s.reshape(-1, s.size(-1)).tolist() if M else []
+                            obs[key + "_draws"] = len(log)
+                            S = s.size(-1)
+                            rows = s.reshape(-1, S).clone()
+                        else:
+                            resampled.append(list(s.shape) == obs["shape"]
+                                             and s.reshape(-1, s.size(-1)).tolist() == obs["rows"])
+                        tensors[op["ref"]] = s
+                    elif kind == "new":
+                        t = content(op, rows, S)
+                        if op.get("dtype"):
+                            t = t.to({"f32": torch.float32, "f64": torch.float64, "i32": torch.int32}[op["dtype"]])
+                        if op.get("lay") and t.numel():
+                            t = tl.relayout(t, op["lay"])
+                        tensors[op["ref"]] = t
+                    elif kind == "set":
+                        # the caller edits a tensor it holds in place
+                        tensors[op["ref"]].copy_(content(op, rows, S))
+                    elif kind == "clear":
+                        dist.clear_cache()
+                    elif kind == "edit":
+                        if op["id"] in outs:
+                            outs[op["id"]].sub_(1)
+                    else:
+                        try:
+                            lp = dist.log_prob(tensors[op["ref"]])
+                            outs[op["id"]] = lp
+                            calls.append({"shape": list(lp.shape), "data": [tl.fs(x) for x in lp.reshape(-1).tolist()]})
+                        except Exception as ex:
+                            calls.append({"error": type(ex).__name__, "message": str(ex)[:160]})
+                obs[key] = calls
+                obs[key + "_resampled_same"] = all(resampled)
                 obs["init_changes"] += tl.state_changes(dist.initial_state, snap) + (
                     [] if init is None else tl.state_changes(init, snap))
             if T is not None:
@@ -1125,34 +1367,32 @@ class C07(PropertyCheck):
                 obs["support"] = (supp if N is None else supp[:, 0]).tolist()
         return obs
 
-    @staticmethod
-    def sample_trace(case):
-        """the calls impl_sample makes on one distribution object, as (observation key, op) pairs;
-        a value is given by the indices of its rows in the flattened sample"""
-        N, M = case["N"], prodl(case["shape"])
-        n = N or 1
-        R = M * n
-        s = list(range(R))
-        tr = [(None, {"op": "sample"}), ("lp", {"op": "lp", "idx": s})]
-        if M:
-            alt = [((i // n - 1) % M) * n + i % n for i in range(R)]
-            tr += [("alt_lp", {"op": "lp", "idx": alt}), ("again_lp", {"op": "lp", "idx": s})]
-            if M >= 2:
-                tr.append(("part_lp", {"op": "lp", "idx": s[n:]}))
-            tr += [(None, {"op": "clear"}), ("cleared_lp", {"op": "lp", "idx": s})]
-        return tr
-
     def req_sample(self, case):
         N = case["N"]
         M = prodl(case["shape"])
-        tabs = tables_for(case, M if N is None else N)
+        script = self.script_of(case)
+        # without a batch shape every row of a value is its own batch element of the language model
+        most = max([M] + [len(op["draws"]) for op in script if op["op"] in ("new", "set")])
+        tabs = tables_for(case, most if N is None else N)
+        ids = [op["id"] for op in script if op["op"] == "lp"]
+        trace = []
+        for op in script:
+            if op["op"] in ("new", "set"):
+                trace.append({"op": op["op"], "ref": op["ref"], "idx": self.row_idx(op, N), "sshape": op["sshape"]})
+            elif op["op"] == "edit":
+                if op["id"] in ids:
+                    trace.append({"op": "edit", "call": ids.index(op["id"])})
+            elif op["op"] == "lp":
+                trace.append({"op": "lp", "ref": op["ref"]})
+            else:
+                trace.append(dict(op))
         return {"op": "c07.sample", "case": {
-            "V": case["V"], "N": N, "M": M, "eos": norm_eos(case),
+            "V": case["V"], "N": N, "M": M, "sample_shape": case["shape"], "eos": norm_eos(case),
             "max_iters": case["max_iters"],
             "lm": tables_json(tabs, case["exact"], dtype=case.get("dtype")),
             "lm_default": tl.lsm_rows([case["default"]], case["exact"], case.get("dtype"))[0],
             "draws": case["draws"], "validate_args": case.get("validate_args", True),
-            "trace": [op for _, op in self.sample_trace(case)]}}
+            "trace": trace}}
 
     # ---- greedy
     def greedy_frames(self, case):
@@ -1404,6 +1644,10 @@ class C07(PropertyCheck):
                 fails.append((f"{what} raised {impl[key]} {lm_note}", None))
             elif not all_close(impl[key], s["chained"], case["exact"]):
                 fails.append((f"{what}: {impl[key]} != chained {s['chained']} {lm_note}", None))
+        if any(sh != [1, case["N"]] for sh in impl.get("dist_lp_shapes", [])):
+            fails.append((f"log_prob of the walk's output as a (1, N, S) value (cache_samples="
+                          f"{bool(case.get('cache'))}; first call, second call, after a sample): shapes "
+                          f"{impl['dist_lp_shapes']}, expected [1, {case['N']}] each", None))
         if "dist_sample" in impl:
             e = norm_eos(case)
             want = [p + [e] * (s["steps"] - len(p)) for p in s["paths"]]
@@ -1466,9 +1710,15 @@ class C07(PropertyCheck):
         exp_shape = [len(s["support"])] + ([] if N is None else [N]) + [T]
         if impl["support_shape"] != exp_shape or not impl["expand_ok"]:
             fails.append((f"support shape {impl['support_shape']} != {exp_shape}", None))
+        if impl.get("value_lp_shapes"):
+            fails.append((f"log_prob of a (1, [N,] S) value does not have the shape (1, [N]): "
+                          f"{impl['value_lp_shapes']} (cache_samples={bool(case.get('cache'))})", None))
         if isinstance(impl["support_lp"], dict):
             fails.append((f"log_prob(enumerate_support()) raised {impl['support_lp']}", None))
         else:
+            if impl["support_lp_shape"] != exp_shape[:-1]:
+                fails.append((f"log_prob(enumerate_support()) has shape {impl['support_lp_shape']}, expected "
+                              f"{exp_shape[:-1]}", None))
             for x in impl["logsumexp"]:
                 if abs(x) > 1e-4:
                     fails.append((f"probabilities over the support sum to exp({x})", None))
@@ -1518,25 +1768,47 @@ class C07(PropertyCheck):
         return fails
 
     # ---- sample
-    LP_KEYS = ("cached_lp", "fresh_lp", "cached_again_lp", "fresh_again_lp", "cached_cleared_lp",
-               "fresh_cleared_lp")
-    ALT_KEYS = ("cached_alt_lp", "fresh_alt_lp")
-    PART_KEYS = ("cached_part_lp", "fresh_part_lp")
-
-    def expected_lp(self, key, lps, M):
-        if key in self.ALT_KEYS:
-            return self.rolled(lps, M)
-        if key in self.PART_KEYS:
-            return lps[len(lps) // M:]
-        return lps
+    ALIAS_SIG = "C07.log_prob.cache_aliases_caller_tensors"
 
     @staticmethod
-    def rolled(lps, M):
-        """scores of the samples rotated by one along the (flattened) sample dimension"""
-        if not M:
-            return []
-        n = len(lps) // M
-        return [lps[((i // n - 1) % M) * n + i % n] for i in range(len(lps))]
+    def call_same(a, b, exact):
+        """two log_prob outcomes agree: the same error class, or the same shape and scores
+        (`b` may be the model's: an error is then the bare class name)"""
+        if isinstance(b, str):
+            b = {"error": b}
+        if "error" in a or "error" in b:
+            return "error" in a and "error" in b and a["error"] == b["error"]
+        return a["shape"] == b["shape"] and all_close(a["data"], b["data"], exact)
+
+    @staticmethod
+    def call_str(a):
+        if isinstance(a, str):
+            return "raises " + a
+        if "error" in a:
+            return f"raises {a['error']} ({a.get('message', '')})"
+        return f"shape {a['shape']} scores {a['data']}"
+
+    def describe_script(self, case, upto):
+        """the calls up to log_prob call `upto`, readable"""
+        out = []
+        for op in self.script_of(case):
+            k = op["op"]
+            if k == "sample":
+                out.append(f"t{op['ref']} = sample({case['shape']})")
+            elif k in ("new", "set"):
+                what = f"draws {op['draws']} as sample shape {op['sshape']}"
+                extra = "".join(f", {f}={op[f]}" for f in ("dtype", "lay", "swap") if op.get(f))
+                out.append(f"t{op['ref']} = tensor({what}{extra})" if k == "new" else
+                           f"t{op['ref']}.copy_({what})  # in place")
+            elif k == "clear":
+                out.append("clear_cache()")
+            elif k == "edit":
+                out.append(f"out{op['id']} -= 1  # in place")
+            else:
+                out.append(f"out{op['id']} = log_prob(t{op['ref']})")
+                if op["id"] == upto:
+                    break
+        return "; ".join(out)
 
     def cmp_sample(self, case, impl, model):
         if self.err(impl):
@@ -1545,30 +1817,37 @@ class C07(PropertyCheck):
         M = prodl(case["shape"])
         out = []
         if not model["flags"]["scored"]:
-            raise RuntimeError("internal: the walks' scores differ from the scores of the sampled rows "
-                               "(hypothesis of C07_log_prob_cache)")
+            raise RuntimeError("internal: the walks' scores (in the shape sample() caches them) differ from "
+                               "log_prob of the sampled value (hypothesis of C07_log_prob_cache)")
         if not model["flags"]["draw_hyps"]:
             raise RuntimeError("internal: the draw hypotheses of C07_sample_in_support / "
                                "C07_sample_batched_in_support do not hold on a generated case")
+        ref = model["spec"]["reference"]
+        if m["repaired_cached"] != ref or m["repaired_fresh"] != ref or m["aliased_fresh"] != ref:
+            raise RuntimeError("internal: the copying / never-caching state machine differs from the reference "
+                               "(C07_log_prob_cache_calls)")
+        if not self.in_place(case) and m["aliased_cached"] != ref:
+            raise RuntimeError("internal: the aliasing state machine differs from the reference on a script "
+                               "without in-place edits (C07_log_prob_cache_aliased_partial)")
         if impl["rows"] != m["rows"]:
             out.append(f"sample rows impl={impl['rows']} model={m['rows']}")
-        else:
-            # the cache state machine of the model, call by call
-            keys = [k for k, _ in self.sample_trace(case) if k is not None]
-            for pre in ("cached", "fresh"):
-                outs = m["trace_" + pre]
-                if len(outs) != len(keys):
-                    raise RuntimeError(f"internal: trace of {len(keys)} log_prob calls, model answered {len(outs)}")
-                for k, mo in zip(keys, outs):
-                    io = impl.get(f"{pre}_{k}")
-                    if isinstance(mo, str):
-                        if not (isinstance(io, dict) and io["error"] == mo):
-                            out.append(f"{pre}_{k} impl={io} model raises {mo}")
-                    elif isinstance(io, dict):
-                        out.append(f"{pre}_{k} impl raised {io} model={mo}")
-                    elif not all_close(io, mo, case["exact"]):
-                        out.append(f"{pre}_{k} impl={io} model={mo}")
+            return out
+        n_calls = len([op for op in self.script_of(case) if op["op"] == "lp"])
+        for pre in ("cached", "fresh"):
+            if len(impl[pre]) != n_calls or len(ref) != n_calls:
+                raise RuntimeError(f"internal: script of {n_calls} log_prob calls, impl answered "
+                                   f"{len(impl[pre])}, model {len(ref)}")
+        same = lambda xs, ys: all(self.call_same(x, y, case["exact"]) for x, y in zip(xs, ys))
+        if not same(impl["fresh"], m["repaired_fresh"]):
+            out.append(f"cache_samples=False: impl={impl['fresh']} model={m['repaired_fresh']}")
+        # the caching object either aliases the caller's tensors (code as pinned) or caches copies
+        if not same(impl["cached"], m["aliased_cached"]) and not same(impl["cached"], m["repaired_cached"]):
+            out.append(f"cache_samples=True: impl={impl['cached']} model(aliasing cache)={m['aliased_cached']} "
+                       f"model(copying cache)={m['repaired_cached']}")
         return out
+
+    def in_place(self, case):
+        return any(op["op"] in ("set", "edit") for op in self.script_of(case))
 
     def pred_sample(self, case, impl, model):
         if self.err(impl):
@@ -1578,17 +1857,18 @@ class C07(PropertyCheck):
         M = prodl(case["shape"])
         fails = []
         exp = case["shape"] + ([] if N is None else [N])
+        script = self.script_of(case)
         if M == 0:
             # no draw at all: an empty tensor of sample + batch + event shape, scores of sample + batch shape
             full = exp + [1 if T is None else T]
             if impl["shape"] != full:
                 fails.append((f"empty sample has shape {impl['shape']}, expected {full}", None))
-            for key in ("cached_lp", "fresh_lp"):
-                v = impl[key]
-                if isinstance(v, dict):
-                    fails.append((f"log_prob of an empty sample raised {v}", None))
-                elif impl[key + "_shape"] != exp or v:
-                    fails.append((f"log_prob of an empty sample has shape {impl[key + '_shape']}", None))
+            for key in ("cached", "fresh"):
+                for v in impl[key]:
+                    if "error" in v:
+                        fails.append((f"log_prob of an empty sample raised {v}", None))
+                    elif v["shape"] != exp or v["data"]:
+                        fails.append((f"log_prob of an empty sample has shape {v['shape']}", None))
             return fails
         S = impl["shape"][-1]
         if impl["shape"][:-1] != exp or S < 1 or (T is not None and S > T):
@@ -1619,32 +1899,73 @@ class C07(PropertyCheck):
         if impl.get("init_changes"):
             fails.append((f"the initial_state of the distribution was modified: {impl['init_changes']} "
                           f"(language model: dictionary handling {case.get('lm_mut') or 'new dictionaries'})", None))
+        for key in ("cached", "fresh"):
+            if not impl[key + "_resampled_same"]:
+                fails.append((f"cache_samples={key == 'cached'}: sample() with the same draws later on the same "
+                              f"object returned other rows", None))
         same_rows = impl["rows"] == model["model"]["rows"]
-        for key in self.LP_KEYS + self.ALT_KEYS + self.PART_KEYS:
-            if key not in impl:
+        ref = model["spec"]["reference"]
+        aliased = model["model"]["aliased_cached"]
+        lps = [op for op in script if op["op"] == "lp"]
+        tens, sshape_of = {}, {}
+        # the value each call was handed: shape and (for the message) the rows
+        value_of = {}
+        for op in script:
+            if op["op"] == "sample":
+                tens[op["ref"]] = list(case["shape"])
+            elif op["op"] == "new":
+                tens[op["ref"]] = list(op["sshape"])
+            elif op["op"] == "lp":
+                value_of[op["id"]] = tens[op["ref"]] + ([] if N is None else [N])
+                sshape_of[op["id"]] = tens[op["ref"]]
+        what = {True: "cache_samples=True", False: "cache_samples=False"}
+        edits = 0
+        pos = {op["id"]: i for i, op in enumerate(lps)}
+        for op in script:
+            if op["op"] in ("set", "edit"):
+                edits += 1
                 continue
-            v = impl[key]
-            exp_lp = self.expected_lp(key, model["model"]["log_probs"], M)
-            exp_shape = exp if key not in self.PART_KEYS else [M - 1] + ([] if N is None else [N])
-            if isinstance(v, dict):
+            if op["op"] != "lp":
+                continue
+            i = pos[op["id"]]
+            exp_shape = value_of[op["id"]]
+            for cache in (False, True):
+                v = impl["cached" if cache else "fresh"][i]
+                r = ref[i]
+                if "error" in v:
+                    sig = None
+                    if isinstance(r, str) and r == v["error"] == "ValueError":
+                        continue  # (not generated: every value of a script is in the support)
+                    if v["error"] == "ValueError" and T is not None and 1 < S < T \
+                            and "cannot broadcast" in v.get("message", ""):
+                        sig = "C07.validate_sample.intermediate_length"
+                    elif not sshape_of[op["id"]] and v["error"] in ("RuntimeError", "IndexError"):
+                        sig = "C07.log_prob.sample_shape"
+                    elif len(sshape_of[op["id"]]) > 1 and N is None and v["error"] == "RuntimeError":
+                        sig = "C07.log_prob.sample_shape"
+                    fails.append((f"{what[cache]}: log_prob call {op['id']} raised {v} (sample_shape="
+                                  f"{case['shape']}, batch={N}, max_iters={T}, rows={impl['rows']}); calls: "
+                                  f"{self.describe_script(case, op['id'])}", sig))
+                    continue
+                bad = []
+                if v["shape"] != exp_shape:
+                    bad.append(f"has shape {v['shape']}, the value's shape without the event dimension is "
+                               f"{exp_shape}")
+                if same_rows and isinstance(r, dict) and not all_close(v["data"], r["data"], case["exact"]):
+                    bad.append(f"returned {v['data']}, the scores of the value's rows are {r['data']}")
+                fresh = impl["fresh"][i]
+                if cache and "error" not in fresh and not self.call_same(v, fresh, case["exact"]) and not bad:
+                    bad.append(f"answers {self.call_str(v)}, the never-caching distribution {self.call_str(fresh)}")
+                if not bad:
+                    continue
                 sig = None
-                if v["error"] == "ValueError" and T is not None and 1 < S < T \
-                        and "cannot broadcast" in v.get("message", ""):
-                    sig = "C07.validate_sample.intermediate_length"
-                elif not case["shape"] and v["error"] in ("RuntimeError", "IndexError"):
-                    sig = "C07.log_prob.sample_shape"
-                elif len(case["shape"]) > 1 and N is None and v["error"] == "RuntimeError":
-                    sig = "C07.log_prob.sample_shape"
-                fails.append((f"{key}: log_prob(sample()) raised {v} (sample_shape={case['shape']}, batch={N}, "
-                              f"max_iters={T}, rows={impl['rows']})", sig))
-            else:
-                if impl[key + "_shape"] != exp_shape:
-                    fails.append((f"{key} shape {impl[key + '_shape']} != {exp_shape}", None))
-                if same_rows and not all_close(v, exp_lp, case["exact"]):
-                    fails.append((f"{key} {v} != score of the rows {exp_lp} (sampled rows {impl['rows']}; "
-                                  f"_alt = the samples rotated by one, _again = the sample after another "
-                                  f"value was scored, _part = all draws but the first, _cleared = after "
-                                  f"clear_cache())", None))
+                # the known defect: the cache shares storage with tensors the caller holds; exactly the
+                # aliasing state machine's answer, after an in-place edit by the caller
+                if cache and edits and self.call_same(v, aliased[i], case["exact"]) \
+                        and not self.call_same(aliased[i], r, True):
+                    sig = self.ALIAS_SIG
+                fails.append((f"{what[cache]}: log_prob call {op['id']} " + " and ".join(bad) +
+                              f" (sampled rows {impl['rows']}); calls: {self.describe_script(case, op['id'])}", sig))
         return fails
 
     # ---- advance
@@ -1806,6 +2127,45 @@ class C07(PropertyCheck):
             t.append(f"{prefix}.ignored_scores={k}")
         t.append(f"{prefix}.classes_that_do_not_count=" + ("some -inf (0 with is_probs)" if other else "finite"))
 
+    def script_tags(self, case):
+        """what the call sequence reaches on the caching object: per sample-shape class of the value
+        how its log_prob is answered (computed from the script: contents compared as row indices, so
+        two different draws that happen to be the same path count as different values)"""
+        t = set()
+        N, M = case["N"], prodl(case["shape"])
+        n = N or 1
+        tens, cache = {}, None     # tensor -> (row indices, sample shape); cache: (content, written by)
+        for op in self.script_of(case):
+            k = op["op"]
+            if k == "sample":
+                tens[op["ref"]] = (tuple(range(M * n)), tuple(case["shape"]))
+                if M:
+                    cache = (tens[op["ref"]], "sample")
+            elif k in ("new", "set"):
+                tens[op["ref"]] = (tuple(self.row_idx(op, N)), tuple(op["sshape"]))
+                if k == "set":
+                    t.add("sample.script.caller_edits_a_value_in_place")
+                for f in ("dtype", "lay", "swap"):
+                    if op.get(f):
+                        t.add(f"sample.script.value_{f}={op[f]}")
+            elif k == "clear":
+                cache = None
+                t.add("sample.script.clear_cache")
+            elif k == "edit":
+                t.add("sample.script.caller_edits_returned_scores_in_place")
+            else:
+                cont = tens[op["ref"]]
+                rank = {0: "()", 1: "(M,)"}.get(len(cont[1]), "(M1,M2,..)")
+                if not prodl(list(cont[1])):
+                    t.add(f"sample.script.log_prob[sample shape {rank}, empty]")
+                    continue
+                hit = cache is not None and cache[0] == cont
+                t.add(f"sample.script.log_prob[sample shape {rank}]=" +
+                      (f"hit on an entry written by {cache[1]}" if hit else "miss"))
+                if not hit:
+                    cache = (cont, "log_prob")
+        return sorted(t)
+
     def tags(self, case, impl):
         k = case["kind"]
         t = ["kind=" + k]
@@ -1851,7 +2211,7 @@ class C07(PropertyCheck):
                                                for n, h in enumerate(case["hyp"]) for tt in range(Tm)])
         elif k == "walk":
             t += [f"walk.V={case['V']}", f"walk.T={case['max_iters']}", f"walk.N={case['N']}",
-                  f"walk.batched={case['batched']}",
+                  f"walk.batched={case['batched']}", f"walk.wrapper_cache_samples={bool(case.get('cache'))}",
                   "stream=" + ("exact" if case["exact"] else "tol"),
                   f"walk.dtype={case.get('dtype', 'f32')}",
                   "walk.initial_state=" + ("unset" if case.get("sel") is None else "selects tables")]
@@ -1863,6 +2223,7 @@ class C07(PropertyCheck):
         elif k == "dist":
             t += [f"dist.T={case['max_iters']}", f"dist.batch={case['N']}", "stream=tol",
                   f"dist.validate_args={case.get('validate_args', True)}",
+                  f"dist.cache_samples={bool(case.get('cache'))}",
                   "dist.initial_state=" + ("unset" if case.get("sel") is None else "selects tables")]
             eos_tag("dist")
             lm_tags("dist")
@@ -1876,6 +2237,7 @@ class C07(PropertyCheck):
             eos_tag("sample")
             lm_tags("sample")
             lay("sample", "lm_layout")
+            t += self.script_tags(case)
             if not self.err(impl) and case["max_iters"] is not None and prodl(case["shape"]) \
                     and impl["shape"][-1] < case["max_iters"]:
                 t.append("sample.all_walks_ended_early")
@@ -1926,6 +2288,10 @@ class C07(PropertyCheck):
             c = dict(case)
             c["junk"] = None
             yield c
+        if case.get("cache"):
+            c = dict(case)
+            c["cache"] = False
+            yield c
         if k == "seq":
             yield from self.shrink_seq(case)
         elif k == "walk":
@@ -1946,15 +2312,7 @@ class C07(PropertyCheck):
                 c["draws"] = case["draws"][: T - 1]
                 yield c
         elif k == "sample":
-            if len(case["shape"]) > 1 and case["N"] is not None:
-                c = dict(case)
-                c["shape"] = [prodl(case["shape"])]
-                yield c
-            if case["N"] is not None and len(case["shape"]) == 1 and case["shape"][0] > 1:
-                c = dict(case)
-                c["shape"] = [case["shape"][0] - 1]
-                c["draws"] = case["draws"][:-1]
-                yield c
+            yield from self.shrink_sample(case)
         elif k == "dist":
             if len(case["values"]) > 1:
                 h = len(case["values"]) // 2
@@ -2007,6 +2365,55 @@ class C07(PropertyCheck):
                     if case.get("junk"):
                         c["junk"] = [h for i, h in enumerate(case["junk"]) if i != drop]
                     yield c
+
+    def shrink_sample(self, case):
+        """smaller scripts first (drop a call together with what depends on it, plain tensors), then
+        a smaller sample with the fixed basic script"""
+        import random
+        script = self.script_of(case)
+
+        def consistent(ops):
+            """drop what refers to dropped tensors / calls"""
+            have, ids, out = set(), set(), []
+            for op in ops:
+                k = op["op"]
+                if k in ("sample", "new"):
+                    have.add(op["ref"])
+                elif k in ("set", "lp") and op["ref"] not in have:
+                    continue
+                elif k == "edit" and op["id"] not in ids:
+                    continue
+                if k == "lp":
+                    ids.add(op["id"])
+                out.append(op)
+            return out
+
+        if case.get("script") is not None:
+            for i in range(len(script) - 1, 0, -1):
+                ops = consistent(script[:i] + script[i + 1:])
+                if any(op["op"] == "lp" for op in ops) and ops[0]["op"] == "sample":
+                    c = dict(case)
+                    c["script"] = ops
+                    yield c
+            for i, op in enumerate(script):
+                if op["op"] == "new" and any(op.get(f) for f in ("dtype", "lay", "swap")):
+                    c = dict(case)
+                    c["script"] = script[:i] + [{f: v for f, v in op.items() if f not in ("dtype", "lay", "swap")}] \
+                        + script[i + 1:]
+                    yield c
+        segs = ["hit_after_sample", "twice:full", "twice:one", "equal_copy", "edit_sample", "edit_value",
+                "edit_scores", "cleared", "reshaped"]
+        if len(case["shape"]) > 1 and case["N"] is not None:
+            c = dict(case)
+            c["shape"] = [prodl(case["shape"])]
+            c["script"] = self.sample_script(random.Random(0), c["shape"], case["N"], 0, segs)
+            yield c
+        if case["N"] is not None and len(case["shape"]) == 1 and case["shape"][0] > 1:
+            c = dict(case)
+            c["shape"] = [case["shape"][0] - 1]
+            c["draws"] = case["draws"][:-1]
+            c["script"] = self.sample_script(random.Random(0), c["shape"], case["N"], 0, segs)
+            yield c
 
     def shrink_seq(self, case):
         import torch
